@@ -10,6 +10,8 @@ UNIT = dict(
         subst=[("PathBuf", "PathS")],
     ),
     structural=[
+        dict(id="C12.structure.ignores_returns_only_through_its_tail", file="crates/cli/src/dirs.rs", count_in_fn="ignores", pattern="return", expect=0,
+             why="the verified tail of dirs::ignores (which appends the explicit files) is the function's only way to return Ok: no early return in the discovery head"),
         dict(id="C12.structure.filterer_new_reads_only_two_discovery_flags", file="crates/cli/src/filterer.rs", impl="impl WatchexecFilterer", count_in_fn="new",
              token_regex=r"no_\w+_ignore|ignore_nothing", expect=2,
              why="--ignore/--filter/--filter-file/--exts/--fs-events values reach GlobsetFilterer::new on code paths that read no discovery flag: the only flags read in WatchexecFilterer::new are no_discover_ignore (ignore files) and no_default_ignore (built-in list)"),
